@@ -1430,7 +1430,9 @@ class Request:
         """
         self.code = code
         if message is not None:
-            self.code_message = message
+            # The reason phrase goes onto the status line: it must not be
+            # able to end that line.
+            self.code_message = _sanitizeLinearWhitespace(message)
         else:
             self.code_message = RESPONSES.get(code, b"Unknown Status")
 
